@@ -553,6 +553,9 @@ func runC02(c *Check, a *Analysis) {
 	// ---- R-RECYCLE
 	ruleRecycle(c, a, comp, "R-RECYCLE")
 
+	ruleLockBalance(c, a, "R-LOCK-BALANCE", "Conn.mutex")
+	ruleReaderTotal(c, a, "R-READER-TOTAL")
+
 	// ---- R-NONBLOCK
 	c.Rule("R-NONBLOCK", "every send on a Call.Done channel is a non-blocking select (a full channel must not block the connection's reader)", 1)
 	for _, fn := range p.Fns {
